@@ -134,9 +134,13 @@ func valueFlowsFrom(v ssa.Value, call ssa.CallInstruction, idx int) bool {
 	return f(v)
 }
 
-func c07Deadline(c *Ctx) {
+func c07Deadline(c *Ctx) { c07DeadlineAs(c, "C07/R4") }
+
+// c07DeadlineAs evaluates the deadline rule under the given rule id (C06 relies on it too: a batch that is cancelled by a
+// stale deadline at its first answer never reaches t contributions).
+func c07DeadlineAs(c *Ctx, rule string) {
 	r := c.R
-	ms := c.Machines("C07/R4")
+	ms := c.Machines(rule)
 	m := ms[pkgSIF]
 	live := false
 	renew := false
@@ -156,9 +160,9 @@ func c07Deadline(c *Ctx) {
 		})
 	}
 	if !live {
-		r.OKd("C07/R4", "signing_proposal_fsm:deadline", "the signing deadline cannot cancel a batch of a round whose key generation is old", "", "no callback advances SigningProposalPayload.UpdatedAt: IsExpired() compares the init-time ExpiresAt with the zero time and is inert")
+		r.OKd(rule, "signing_proposal_fsm:deadline", "the signing deadline cannot cancel a batch of a round whose key generation is old", "", "no callback advances SigningProposalPayload.UpdatedAt: IsExpired() compares the init-time ExpiresAt with the zero time and is inert")
 		return
 	}
-	r.Check(renew, "C07/R4", "signing_proposal_fsm:deadline", "if the signing deadline is live, every proposal renews ExpiresAt", "",
+	r.Check(renew, rule, "signing_proposal_fsm:deadline", "if the signing deadline is live, every proposal renews ExpiresAt", "",
 		"callbacks advance SigningProposalPayload.UpdatedAt but event_signing_start does not renew ExpiresAt (set once at event_signing_init): a week after key generation every batch is cancelled by timeout at its first answer")
 }
